@@ -276,30 +276,18 @@ fn exhaustive_cases(l: usize) -> Vec<Case> {
     out
 }
 
-thread_local! {
-    static DIR: std::cell::RefCell<Option<std::path::PathBuf>> = const { std::cell::RefCell::new(None) };
-}
-
-fn with_dir<T>(ctx: &Ctx, f: impl FnOnce(&Path) -> T) -> T {
-    DIR.with(|d| {
-        let mut d = d.borrow_mut();
-        if d.is_none() {
-            *d = Some(ctx.fresh_dir("c18"));
-        }
-        f(d.as_ref().unwrap())
-    })
-}
-
 pub fn run(ctx: &Ctx) {
     ctx.set_rule("operation sequences over tftpd::Window in the two ways its callers use it (reader: file opened read-only, fill/remove/add; writer: fresh write-only file, add/remove/empty), compared after every step with a VecDeque reference model plus a cursor into the file bytes (elements, return values, len/is_empty/is_full, file contents). Exhaustive: all sequences up to length L over 4 ops for size 0..3, chunk 1..3 and every file length up to (size+2)*chunk+1; random: sequences up to 40 ops, size 0..6 and 65535, chunk 1..9. Non-trivial = a fill after a remove, or an empty after >=2 adds; distinct = distinct (parameters, sequence).");
     ctx.assume("fill is only exercised on windows over readable files and empty only on writable ones (the callers' use)");
+    let dirs = DirPool::new(ctx, "c18");
     let l = ctx.tier.pick(5, 6);
     let cases = exhaustive_cases(l);
     ctx.extra("exhaustive_sequence_length", serde_json::json!(l));
-    enumerate(ctx, "exh-sequences", &cases, true, |c, o| with_dir(ctx, |d| judge(d, c, o)));
-    explore(ctx, "random", ctx.tier.pick(150_000, 2_000_000), strategy, |c: &Case, o| with_dir(ctx, |d| judge(d, c, o)));
+    enumerate(ctx, "exh-sequences", &cases, true, |c, o| dirs.with(|d| judge(d, c, o)));
+    explore(ctx, "random", ctx.tier.pick(150_000, 2_000_000), strategy, |c: &Case, o| dirs.with(|d| judge(d, c, o)));
 }
 
 pub fn replay(ctx: &Ctx, part: &str, case: &Value) -> bool {
-    replay_one(ctx, part, case, |c: &Case, o| with_dir(ctx, |d| judge(d, c, o)))
+    let dirs = DirPool::new(ctx, "c18");
+    replay_one(ctx, part, case, |c: &Case, o| dirs.with(|d| judge(d, c, o)))
 }
